@@ -127,7 +127,7 @@ func vh_C14_aborts() {
 	verif.Assert(err != nil, "abort condition yields an error")
 }
 
-//verif:ob prop=C14 name=ExpandMessageXMD_largest_ell mode=bv tags=purego tier=thorough
+//verif:ob prop=C14 name=ExpandMessageXMD_largest_ell mode=bv tags=purego tier=thorough maxunroll=20000
 func vh_C14_xmd_255() {
 	dst := []byte("D")
 	out := make([]byte, 255*32)
